@@ -87,7 +87,13 @@ def short_strings():
 
 def usable(j):
     s = j.strip()
-    return not s.startswith("~") and not STEER_RE.search(j) and "\n" not in j and "\r" not in j
+    return not s.startswith("~") and not names_steering_mnemonic(j) and "\n" not in j and "\r" not in j
+
+
+def names_steering_mnemonic(j):
+    """Does the line NAME one of VERS, WRAP, DLM, NULL (its mnemonic field, in any case)?  'NULLS.', 'DLMT.' and 'VERSION.' do not."""
+    name = re.split(r"[.:]", j, maxsplit=1)[0].strip().upper()
+    return name in ("VERS", "WRAP", "DLM", "NULL") or bool(re.fullmatch(r"(VERS|WRAP|DLM|NULL):\d+", name))
 
 
 def grid(tier):
@@ -111,6 +117,13 @@ def grid(tier):
         yield {"base": "gen", "vers": "2.0", "junk": junk, "seed": 6000 + jk, "each_section": True, "via_path": True, "nonascii": True}
     for n in (60, 130):
         yield {"base": "gen", "vers": "2.0", "junk": ["ascii junk line %s" % ("y" * 40)], "seed": 6100 + n, "each_section": True, "flood": n, "via_path": True, "nonascii": True}
+    # junk whose mnemonic only BEGINS like a steering mnemonic, in bases that lack that steering line (or state it twice): it must not steer
+    for jk, (junk, drop, dup, kw) in enumerate(((["NULLS. 2.25 : junk"], ["NULL"], None, {}), (["NULLX.M 3.25 : junk", "XNULL. 4.25 : junk"], ["NULL"], None, {}),
+                                                (["DLMT. COMMA : junk"], [], None, {"engine": "normal"}), (["DLM2. TAB : junk"], [], None, {"engine": "normal"}),
+                                                (["VERSION. 1.2 : junk"], ["VERS"], None, {}), (["VERSION. 1.2 : junk"], [], "VERS", {}), (["WRAPS. NO : junk", "WRAPPED. NO : junk"], ["WRAP"], None, {}),
+                                                (["NULLS. 2.25 : junk"], [], "NULL", {}))):
+        for vers in ("2.0", "1.2"):
+            yield {"base": "gen", "vers": vers, "junk": junk, "seed": 6500 + jk, "each_section": True, "drop": drop, "dup": dup, "read_kw": kw}
     # the same for files stored in other encodings without a BOM (readable by path on their own): UTF-16 (every ASCII character
     # carries a NUL byte) and an 8-bit code page
     for codec in ("utf-16-be", "utf-16-le", "cp1252"):
@@ -226,6 +239,17 @@ def run_case(case, ctx):
         text = base_text(case["vers"], case["seed"] % 5)
         if case.get("nonascii"):
             text = text.replace("ACME OIL", "SOCIÉTÉ ÅSGÅRD").replace("DEGC", "°C")
+        if case.get("drop") or case.get("dup"):
+            out = []
+            for ln in text.split("\n"):
+                name = ln.split(".")[0].strip().upper()
+                if name in (case.get("drop") or []):
+                    continue
+                out.append(ln)
+                if name == case.get("dup"):
+                    out.append(ln)
+            text = "\n".join(out)
+            ctx.count("bases_lacking_or_doubling_a_steering_line")
     else:
         try:
             with open(os.path.join(env.REPO, case["base"]), encoding="utf-8") as f:
@@ -241,9 +265,9 @@ def run_case(case, ctx):
             bpath = os.path.join(ctx.scratch, "c19-base-%d.las" % (case["seed"] % 100000))
             with open(bpath, "w", encoding=case.get("file_codec", "utf-8"), newline="\n") as fh:
                 fh.write(text)
-            base = lasio.read(bpath, mnemonic_case=mc)
+            base = lasio.read(bpath, mnemonic_case=mc, **case.get("read_kw", {}))
         else:
-            base = lasio.read(text, mnemonic_case=mc)
+            base = lasio.read(text, mnemonic_case=mc, **case.get("read_kw", {}))
     except Exception:
         ctx.count("base_unreadable")
         return
@@ -311,7 +335,7 @@ def run_case(case, ctx):
             if first_na is not None and first_na >= 4000:
                 ctx.count("path_reads_with_first_nonascii_byte_beyond_4000")
         try:
-            las = lasio.read(source, ignore_header_errors=True, mnemonic_case=mc)
+            las = lasio.read(source, ignore_header_errors=True, mnemonic_case=mc, **case.get("read_kw", {}))
         except Exception as e:
             mech = "flag-set-read-raised:%s:%s" % (type(e).__name__, "+".join(sorted({k for _, k, *_ in plan})))
             if eight_bit_by_path and isinstance(e, KeyError) and "No ~ sections" in str(e):
@@ -355,7 +379,7 @@ def run_case(case, ctx):
         # ---- without the flag ------------------------------------------------------------------------------------------
         ctx.count("reads_without_flag")
         try:
-            lasio.read(jtext, mnemonic_case=mc)
+            lasio.read(jtext, mnemonic_case=mc, **case.get("read_kw", {}))
         except lasio.exceptions.LASHeaderError as e:
             ctx.count("without_flag_header_errors")
             msg = str(e)
